@@ -25,6 +25,15 @@ CLAIMED = {
              "(no recovered panic, no slow call, on ~20k generated/mutated cases per quick run) - partial in that respect.",
         note="Partial: no-panic/no-hang is tested, not proved; the MaxHTTPBodySize bound is checked by the C07 harness on the real processors. Trusted: as C06.",
         design="4/C08"),
+    "C09": dict(
+        technique="Coq model of the response writer (all coalescing branches) + differential run of the extracted model; theorems on Write results; net/http as independent decoder oracle",
+        text="coq/httpresp: nbhttp/response.go (as repaired) as a state machine over handler operations; theorems: every successful Write reports exactly len(data), "
+             "a refused Write (Content-Length exceeded) puts nothing on the wire. The decoding claim (wire = one well-formed response with the handler's status, headers, "
+             "trailers and body) is decided on every run by the implementation-side oracle (net/http decodes the recorded wire) and by comparing the boundaries and bytes of "
+             "every conn.Write with the model, on generated handler programs aimed at the 64 KiB threshold. Partial: c09_decodes is not yet a theorem.",
+        note="Partial: only the Write-result clauses are theorems; framing/decoding is differential + oracle. Known finding D9 (HTTP/1.0 Flush before last Write). "
+             "ReadFrom/Sendfile path not covered. Trusted: Coq kernel, extraction, OCaml driver, Go harness, net/http's client parser.",
+        design="4/C09, Appendix C, O"),
     "C20": dict(
         technique="Coq proof (invariant by induction over op sequences, all oracle answers) + differential run of the extracted model",
         text="Theorems in coq/mempool/C20.v about the executable model of mempool.MemPool: length, content preservation, "
